@@ -124,6 +124,8 @@ fn real_main() {
 				engines::chunker::run(&mut out, &mut rng.fork(), thorough);
 				engines::transcode::run(&mut out, &mut rng.fork(), thorough);
 				props::c04::run(&mut out, &mut rng.fork(), thorough);
+				props::cli_extra::c04_long_error_lines(&mut out);
+				props::cli_extra::arg0_variants(&mut out);
 			}
 			"C06" => {
 				engines::msgpack::run_decode(&mut out, &mut rng.fork(), thorough);
@@ -200,12 +202,15 @@ fn real_main() {
 				props::cli_extra::c13_unreadable_operand(&mut out);
 				props::cli_extra::c13_non_utf8_arguments(&mut out);
 				props::cli_extra::special_file_inputs(&mut out);
+				props::cli_extra::arg0_variants(&mut out);
 			}
 			"C14" => {
 				props::c14::run(&mut out, &mut rng.fork(), thorough);
 				props::cli_extra::c14_stdin_at_offset(&mut out, &mut rng.fork(), thorough);
 				props::cli_extra::c14_unmappable_regular_file(&mut out);
 				props::cli_extra::special_file_inputs(&mut out);
+				// extension of a name whose stem is not UTF-8
+				props::cli_extra::c13_non_utf8_arguments(&mut out);
 			}
 			"C15" => {
 				props::c15::run(&mut out, &mut rng.fork(), thorough);
